@@ -22,7 +22,7 @@ RULE = ("cases = (prior environment, sequence of 1-6 envPrepend/envAppend/envSet
         "expanded by Table.expandEupsVariables; half of those are read from a real table file through Product.getTable), "
         "a third run with --force over a generated oldEnviron/oldAliases; plus an exhaustive small family (prior lists over "
         "{a,b,x,empty} up to length 3 x 4 values x prepend/append x direction x flags) and an end-to-end family (a product "
-        "directory whose table of 1-5 path/set lines is set up with eups.app.setup(productRoot=dir) and unset again, each by a "
+        "directory whose table of 1-5 path/set lines is set up with eups.app.setup — setup -r dir, or declared and set up by name — and unset again, each by a "
         "fresh Eups, compared with the model of the table's lines run forward and backward); a case is "
         "non-trivial when at least one action changes the variable or is refused; distinct = distinct case digests")
 TRUSTED = ["CPython `re`, `str.split/join` on the patterns used by execute_envPrepend (exercised, not verified)",
@@ -705,7 +705,8 @@ def gen_e2e(rng):
             continue
         pool = atoms + ["", "${X}/kept"] + [l["value"] for l in lines if isinstance(l["val"], str)]
         env[v] = delim.join(rng.choice(pool) for _ in range(rng.randint(0, 5)))
-    return {"kind": "e2e", "env": env, "lines": lines, "delim": delim, "dirname": rng.choice(["prd", "loc dir", "p-1.0"])}
+    return {"kind": "e2e", "env": env, "lines": lines, "delim": delim, "dirname": rng.choice(["prd", "loc dir", "p-1.0"]),
+            "route": rng.choice(["local", "declared"])}
 
 
 def run_e2e(case):
@@ -714,22 +715,29 @@ def run_e2e(case):
         common.import_eups()
         root = common.scratch("c12e")
         try:
-            common.mkstacks(root)
+            stacks, _ = common.mkstacks(root)
             d = os.path.join(root, case["dirname"], "prd")
             os.makedirs(os.path.join(d, "ups"))
             acts = [dict(l, fwd=True, words=[]) for l in case["lines"]]
             with open(os.path.join(d, "ups", "prd.table"), "w") as f:
                 f.write(table_text({"acts": acts}))
+            declared = case.get("route") == "declared"
             for k in ("V", "W", "FOO", "X", "PRD_DIR", "SETUP_PRD"):
                 os.environ.pop(k, None)
             os.environ.update(case["env"])
             M, app = common.eups_mod("Eups"), common.eups_mod("app")
             U = common.eups_mod("utils")
             U.stderr = U.stdwarn = U.stdinfo = U.stdok = io.StringIO()
-            out = {"dir": d, "eupsPath": os.environ.get("EUPS_PATH")}
+            out = {"dir": d, "eupsPath": os.environ.get("EUPS_PATH"), "root": stacks[0] if declared else None}
             with contextlib.redirect_stderr(io.StringIO()), contextlib.redirect_stdout(io.StringIO()):
                 try:
-                    cmds = app.setup("prd", productRoot=d, eupsenv=M.Eups(quiet=1))
+                    if declared:        # a declared version, set up by name: the main loop of Eups.setup runs the table
+                        E0 = M.Eups(quiet=1)
+                        E0.declare("prd", "1.0", productDir=d)
+                        out["flavor"] = E0.flavor
+                        cmds = app.setup("prd", "1.0", eupsenv=M.Eups(quiet=1))
+                    else:               # setup -r dir: the localProduct loop runs it
+                        cmds = app.setup("prd", productRoot=d, eupsenv=M.Eups(quiet=1))
                     out["setup"] = "false" if "false" in cmds else {v: os.environ.get(v) for v in VARS}
                     out["setup_dir"] = os.environ.get("PRD_DIR")
                     cmds = app.setup("prd", eupsenv=M.Eups(quiet=1), fwd=False)
@@ -753,8 +761,9 @@ def e2e_requests(case, out):
     d = out["dir"]
     acts = [{"op": l["op"], "fwd": True, "var": l["var"], "value": l["value"], "delim": l["delim"]} for l in case["lines"]]
     base = {"m": "path", "env": dict(case["env"], EUPS_PATH=out["eupsPath"]), "fromfile": True, "eupspath": out["eupsPath"],
-            "product": {"root": None, "dir": d, "extraDir": "", "extraExists": False, "name": "prd", "flavor": None,
-                        "version": None, "upsDir": os.path.join(d, "ups")}}
+            "product": {"root": out.get("root"), "dir": d, "extraDir": "", "extraExists": False, "name": "prd",
+                        "flavor": out.get("flavor"), "version": "1.0" if out.get("root") else None,
+                        "upsDir": os.path.join(d, "ups")}}
     return [dict(base, acts=acts), dict(base, acts=acts + [dict(a, fwd=False) for a in acts])]
 
 
@@ -819,7 +828,8 @@ def evaluate_e2e(ctx, cases):
     for c, o in zip(cases, outs):
         ctx.hist("e2e")
         ctx.hist("e2e-lines=%d" % len(c["lines"]))
-        ctx.case(key={"e2e": c["env"], "lines": c["lines"], "dirname": c["dirname"]}, nontrivial=True, sample=None)
+        ctx.hist("e2e-route=%s" % c.get("route"))
+        ctx.case(key={"e2e": c["env"], "lines": c["lines"], "dirname": c["dirname"], "route": c.get("route")}, nontrivial=True, sample=None)
         if "dir" in o:
             a1, a2 = next(answers), next(answers)
             mo = {"setup": ({v: a1["env"].get(v) for v in VARS} if a1["out"] == "ok" else a1["out"]),
